@@ -36,6 +36,11 @@ CHECKS: dict[str, dict] = {
         technique="explicit-state exploration of the real send loops on a fake socket: every answer sequence of send()/sendmsg() (all partial sizes, EAGAIN, EINTR, reset) and every unblock delay, states merged on (offered buffers, wire, clock, fault budget), livelock = state repeated without an environment choice; asyncio adapter by deviation-bounded schedule enumeration",
         text="For all chunk sequences up to the bound (empty chunks everywhere) and all socket answer sequences (no deviation bound on the blocking paths) the bytes on the wire equal the concatenation on success and a prefix of it on TimeoutError/OSError, the call never spins or blocks forever and never exceeds its budget; five blocking send paths plus the asyncio adapter.",
     ),
+    "C10": dict(
+        cat="exploration", ref="DESIGN.md §3 C10, §2 E2", engine="E2 vloop + mc/envsched.py",
+        technique="stateless schedule enumeration on the real asyncio loop: every peer write and the cancel request placed at every loop-iteration boundary (same-iteration races as bounded deviations, explicit coincidence with the scope deadline); blocking endpoint by complete enumeration of arrival instants",
+        text="For every receive layer (transport recv/recv_into, both endpoint receive paths, blocking endpoint) and every canceller (task.cancel, canceller task, move_on_after, timeout) all relative orders of {read callback, cancel request, task wake-up} within the stated deviation bound: the data returned by the receives that completed is exactly the peer's stream.",
+    ),
 }
 
 NOT_YET: dict[str, str] = {}
